@@ -91,11 +91,14 @@ func (s *gkvp) SerializeValueTo(pc *PrintCtx) {
 	// if sb.jsonMode {
 	// 	sb.appendRune('}')
 	// }
-	_ = serializeAttrs(pc, s.items)
+	_ = serializeAttrs(pc, slices.Clone(s.items)) // see Attrs.SerializeValueTo
 }
 
+// SerializeValueTo prints the members of a group. serializeAttrs sorts and
+// dedupes its argument in place; the members of a group are shared by every
+// record (and every goroutine) that prints the group, so it works on a copy.
 func (s Attrs) SerializeValueTo(pc *PrintCtx) {
-	_ = serializeAttrs(pc, s)
+	_ = serializeAttrs(pc, slices.Clone(s))
 }
 
 func dedupeSlice[S ~[]E, E any](x S, cmp func(a, b E) bool) S {
